@@ -263,6 +263,9 @@ func (e *Engine) intrinsic(st *State, fr *Frame, fn *ssa.Function, args []Value,
 	case "verifTag":
 		return retExit(st, nil), true
 	}
+	if res, ok := e.netIntrinsic(st, name, args); ok {
+		return res, true
+	}
 	return e.intrinsic2(st, fr, fn, args, pos)
 }
 
